@@ -686,6 +686,10 @@ void clearComponentImports(const ComponentPtr &component)
 
 void Importer::clearImports(ModelPtr &model)
 {
+    if (model == nullptr) {
+        return;
+    }
+
     // Clear the models from all import sources in the model.
     for (size_t u = 0; u < model->unitsCount(); ++u) {
         auto mu = model->units(u);
@@ -1027,6 +1031,9 @@ ModelPtr Importer::library(const size_t &index)
 
 bool Importer::addModel(const ModelPtr &model, const std::string &key)
 {
+    if (model == nullptr) {
+        return false;
+    }
     auto normalisedKey = normaliseDirectorySeparator(key);
     if (pFunc()->mLibrary.count(normalisedKey) != 0) {
         // If the key already exists in the library, do nothing.
